@@ -48,6 +48,8 @@ func (e event) String() string {
 		return fmt.Sprintf("join(n%d via n%d; the first snapshot message sent to it fails)", e.Node, e.Via)
 	case "remove":
 		return fmt.Sprintf("remove(n%d via n%d)", e.Node, e.Via)
+	case "entry":
+		return fmt.Sprintf("a catalogue entry (dataset created via n%d)", e.Via)
 	case "deafen":
 		return fmt.Sprintf("n%d stops receiving appends and snapshots (lags behind)", e.Node)
 	case "heal":
@@ -60,7 +62,7 @@ type wld struct {
 	*sim.Servers
 	members map[uint64]string // acknowledged membership: id -> announced address
 	removed map[uint64]bool
-	counts  struct{ joins, removes, snapshots, restarts int }
+	counts  struct{ joins, removes, snapshots, restarts, entries int }
 }
 
 func build(path []event) (*wld, string, string) {
@@ -76,7 +78,11 @@ func build(path []event) (*wld, string, string) {
 		return w, "boot:" + k, d
 	}
 	for _, e := range path {
-		if k, d := w.apply(e); k != "" {
+		k, d := w.apply(e)
+		if os.Getenv("VERIF_DEBUG") != "" {
+			fmt.Fprintf(os.Stderr, "after %v: %s | %s\n", e, k, w.canon())
+		}
+		if k != "" {
 			return w, k, fmt.Sprintf("after %v: %s", e, d)
 		}
 	}
@@ -158,6 +164,23 @@ func (w *wld) apply(e event) (string, string) {
 		w.FailSend = nil
 		if k != "" {
 			return k, d
+		}
+	case "entry":
+		w.counts.entries++
+		// an entry that is not a membership change travels through the same log (a dataset is created through node Via)
+		var err error
+		done := false
+		w.Call(e.Via, "create", func() {
+			_, err = fakes.Registry[world.ServerAddr(e.Via)].Datasets.Create(context.Background(), &pb.Dataset{Dimension: 2, PartitionCount: 1, ReplicationFactor: 1})
+			done = true
+		})
+		w.Settle(4)
+		if !done {
+			w.FireDeadlines(e.Via)
+			w.Settle(1)
+		}
+		if !done || err != nil {
+			return "catalogue-entry-fails-on-healthy-cluster", fmt.Sprintf("returned=%v err=%v", done, err)
 		}
 	case "deafen":
 		w.Deaf[e.Node] = true
@@ -258,7 +281,7 @@ func (w *wld) canon() string {
 			sb.WriteString(st)
 		}
 	}
-	fmt.Fprintf(&sb, "|snap%d", w.counts.snapshots)
+	fmt.Fprintf(&sb, "|snap%d entries%d", w.counts.snapshots, w.counts.entries)
 	return sb.String()
 }
 
@@ -266,7 +289,7 @@ func (w *wld) canon() string {
 // top bit set (does not fit a signed integer) and reads differently in another base, as does 26 = 0x1a.
 var joinerIDs = []uint64{2, 0x800000000000001a, 26}
 
-var limits struct{ joins, removes, snapshots, restarts, maxNode int }
+var limits struct{ joins, removes, snapshots, restarts, maxNode, entries int }
 
 func enabled(w *wld) []event {
 	var out []event
@@ -304,6 +327,9 @@ func enabled(w *wld) []event {
 			}
 		}
 	}
+	if w.counts.entries < limits.entries && len(live) > 0 {
+		out = append(out, event{Kind: "entry", Via: live[len(live)-1]})
+	}
 	for _, id := range live {
 		if w.counts.snapshots < limits.snapshots {
 			out = append(out, event{Kind: "snapshot", Node: id})
@@ -327,6 +353,9 @@ func directed() [][]event {
 		{{Kind: "join", Node: 2, Via: 1}, {Kind: "join", Node: X, Via: 1}, {Kind: "deafen", Node: X}, {Kind: "join", Node: 26, Via: 1}, {Kind: "remove", Node: 26, Via: X}, {Kind: "heal"}},
 		// a member that missed a join is caught up by a snapshot, compacts its own log and restarts
 		{{Kind: "join", Node: 2, Via: 1}, {Kind: "join", Node: X, Via: 1}, {Kind: "deafen", Node: X}, {Kind: "join", Node: 26, Via: 1}, {Kind: "snapshot", Node: 1}, {Kind: "snapshot", Node: 2}, {Kind: "heal"}, {Kind: "snapshot", Node: X}, {Kind: "restart", Node: X}},
+		// ... the same with an ordinary entry after the catch-up, so that the member's own compaction has something to cut
+		{{Kind: "join", Node: 2, Via: 1}, {Kind: "join", Node: X, Via: 1}, {Kind: "deafen", Node: X}, {Kind: "join", Node: 26, Via: 1}, {Kind: "snapshot", Node: 1}, {Kind: "snapshot", Node: 2}, {Kind: "heal"}, {Kind: "entry", Via: 1}, {Kind: "snapshot", Node: X}, {Kind: "restart", Node: X}, {Kind: "restart", Node: 1}},
+		{{Kind: "join", Node: 2, Via: 1}, {Kind: "entry", Via: 2}, {Kind: "snapshot", Node: 2}, {Kind: "join", Node: X, Via: 2}, {Kind: "entry", Via: X}, {Kind: "snapshot", Node: X}, {Kind: "restart", Node: X}, {Kind: "restart", Node: 2}},
 		{{Kind: "join", Node: 2, Via: 1}, {Kind: "join", Node: X, Via: 2}, {Kind: "deafen", Node: 2}, {Kind: "join", Node: 26, Via: 1}, {Kind: "snapshot", Node: 1}, {Kind: "heal"}, {Kind: "snapshot", Node: 2}, {Kind: "restart", Node: 2}, {Kind: "restart", Node: 1}},
 	}
 }
@@ -343,10 +372,12 @@ type result struct {
 func main() {
 	thorough := os.Getenv("VERIF_TIER") == "thorough"
 	limits.joins, limits.removes, limits.snapshots, limits.restarts, limits.maxNode = 2, 1, 2, 2, 3
+	limits.entries = 1
 	depth := 6
 	budget := 100 * time.Second
 	if thorough {
 		limits.joins, limits.removes, limits.snapshots, limits.restarts, limits.maxNode = 3, 2, 2, 3, 4
+		limits.entries = 2
 		depth = 8
 		budget = 25 * time.Minute
 	}
@@ -358,7 +389,7 @@ func main() {
 		}
 		b, _ := os.ReadFile(os.Args[2])
 		json.Unmarshal(b, &f)
-		limits.joins, limits.removes, limits.snapshots, limits.restarts = 99, 99, 99, 99
+		limits.joins, limits.removes, limits.snapshots, limits.restarts, limits.entries = 99, 99, 99, 99, 99
 		w, k, d := build(f.Replay.Path)
 		fmt.Println(w.canon())
 		w.Close()
@@ -450,7 +481,7 @@ func main() {
 		"servers are built by the real Server.setup(); joins go through the real NodesManager.Join / AddNode handshake, removals through RemoveNode; the zero-group snapshot offset is lowered to 0",
 		"one event at a time, the cluster settles in between; a lost handshake reply makes the joining process exit (as cmd/anndb does) and be started again",
 		"a removed node's process is stopped; only members' views are compared",
-		"directed histories (5, both tiers) add a lagging member (appends and snapshots to it are lost until it is healed; its view is not judged while it lags) and a snapshot message whose RPC fails once",
+		"directed histories (7, both tiers) add a lagging member (appends and snapshots to it are lost until it is healed; its view is not judged while it lags) and a snapshot message whose RPC fails once",
 	}
 	run.Finish(ev.Coverage{
 		"states":                        total.States,
@@ -458,7 +489,7 @@ func main() {
 		"traces_validated_against_impl": total.Transitions,
 		"evaluations":                   total.Transitions,
 		"distinct_nontrivial":           total.States,
-		"rule":                          fmt.Sprintf("BFS to depth %d over join / lossy join / remove / snapshot / restart histories on clusters growing from 1 to %d real servers; after every event every live member's address book must equal the acknowledged membership with the announced addresses; distinct = canonical digest of all views + zero-group status", depth, limits.maxNode),
+		"rule":                          fmt.Sprintf("BFS to depth %d over join / lossy join / remove / snapshot / restart / ordinary-entry histories on clusters growing from 1 to %d real servers; after every event every live member's address book must equal the acknowledged membership with the announced addresses; distinct = canonical digest of all views + zero-group status", depth, limits.maxNode),
 		"outcome_classes":               total.Outcomes,
 		"directed_history_events":       directedEvents,
 		"samples":                       []interface{}{[]event{{Kind: "join", Node: 2, Via: 1}, {Kind: "snapshot", Node: 2}, {Kind: "restart", Node: 2}}},
